@@ -554,6 +554,14 @@ func (e *Env) contractForm(name string, n *ast.CallExpr) (Value, bool) {
 	case "mathint":
 		v := e.expr(n.Args[0])
 		return Scalar{e.toIntTerm(v), mathIntType}, true
+	case "sameptr":
+		// sameptr(p, q): both pointers designate the same allocation (decided statically per path)
+		p, ok1 := e.expr(n.Args[0]).(PtrV)
+		q, ok2 := e.expr(n.Args[1]).(PtrV)
+		if !ok1 || !ok2 {
+			unsupported("%s: sameptr of non-pointers", e.where)
+		}
+		return Scalar{BoolC(p.Alloc == q.Alloc && strings.Join(p.Path, ".") == strings.Join(q.Path, ".")), boolT}, true
 	case "mkarray":
 		// mkarray(n, k, elem): the n-element array whose k-th element is elem (n a constant)
 		cnt, ok := e.toIntTerm(e.expr(n.Args[0])).Int64()
@@ -632,6 +640,12 @@ func (e *Env) quantifier(kind string, n *ast.CallExpr) Value {
 	}
 	k := e.x.fresh(id.Name, IntS)
 	sub := e.sub(map[string]Value{id.Name: Scalar{k, intT}})
+	if e.knownNonNeg(lo, 0) {
+		if sub.nonneg == nil {
+			sub.nonneg = map[*Term]bool{}
+		}
+		sub.nonneg[k] = true
+	}
 	body := sub.boolTerm(sub.expr(n.Args[3]))
 	rng := And(Le(lo, k), Lt(k, hi))
 	if kind == "forall" {
@@ -1296,15 +1310,24 @@ func (x *Exec) inlineCall(e *Env, callee *types.Func, c *Contract, args []Value,
 }
 
 func termMentionsApp(t *Term, name string) bool {
-	if t.Op == "app" && t.Name == name {
-		return true
+	return mentionsApp(t, name, map[*Term]bool{})
+}
+
+func mentionsApp(t *Term, name string, memo map[*Term]bool) bool {
+	if v, ok := memo[t]; ok {
+		return v
 	}
-	for _, a := range t.Args {
-		if termMentionsApp(a, name) {
-			return true
+	r := t.Op == "app" && t.Name == name
+	if !r {
+		for _, a := range t.Args {
+			if mentionsApp(a, name, memo) {
+				r = true
+				break
+			}
 		}
 	}
-	return false
+	memo[t] = r
+	return r
 }
 
 func mentionsVar(t *Term, name string) bool {
